@@ -200,7 +200,8 @@ def step (st : DState) (line : String) : DState × String :=
     let k : Option (ApiKind Float) :=
       if kind = "const" then some (.const (floatOfHex a1)) else if kind = "decline" then some .decline
       else if kind = "echo" then some (.echo (stringOfHex a1)) else if kind = "sum" then some .sum
-      else if kind = "coin" then some (.coin (floatOfHex a1) a2) else none
+      else if kind = "coin" then some (.coin (floatOfHex a1) a2)
+      else if kind = "when" then (match a2.splitOn ":" with | [f, w] => some (.when (stringOfHex f) (stringOfHex w) (floatOfHex a1)) | _ => none) else none
     (match patsDec, k with
      | some ps, some k =>
        let (c', ok) := addRule st.cfg lang ⟨.api (stringOfHex name) k, ps⟩
